@@ -110,9 +110,18 @@ def place_expr(crate, body, p, env, depth):
     if len(defs) != 1:
         sd_ = body.single_def_at(l, p.get('@'), p.get('@i')) if hasattr(body, 'single_def_at') else None
         if sd_ is None:
+            # a value chosen by a `match` / `if` (two or three plain assignments): keep the alternatives, so that a rule can ask whether each of them
+            # is acceptable (`match start { Some(i) => i % n, None => 0 }` is `start.map_or(0, |i| i % n)`)
+            if 2 <= len(defs) <= 3 and depth > 4 and all(d[2] == 'assign' for d in defs):
+                alts = tuple(_def_expr(crate, body, d, env, depth - 3) for d in defs)
+                return ('phi', body.local_name(l) or '_%d' % l, len(defs), alts)
             return ('phi', body.local_name(l) or '_%d' % l, len(defs))
         defs = [sd_]
-    b, i, kind, payload = defs[0]
+    return _def_expr(crate, body, defs[0], env, depth)
+
+
+def _def_expr(crate, body, d, env, depth):
+    b, i, kind, payload = d
     if kind == 'yield':
         return ('unknown', 'resume')
     if kind == 'call':
